@@ -274,6 +274,7 @@ func genC05(g *Gen) {
 	}
 	g.w.max = budget
 	g.parseGrid(0.2)
+	g.edgeLiteralGrid(0.15)
 	specials := []string{"NaN", "nan", "NAN", "nAn", "Inf", "inf", "INF", "+Inf", "-inf", "Infinity", "-INFINITY", "+infinity", "iNfInItY", "+NaN", "-nan",
 		"in", "infi", "infinit", "infinityy", "na", "nann", "", "+", "-", ".", "-.", "+.", "e", "e5", ".e5", "1e", "1e+", "1e-", "0", "-0", "+0", "0e0", "-0.000e-7000", "00", "0_0", "_0", "0_",
 		"1_.0", "1._0", "1_e5", "1e_5", "1e5_", "1.5_e1", "1__0", "1_0_0", "1e1_0", "1e+_1", "1.", ".5", "5.e3", "1..0", "1.0.0", "1e5e5", "1e5.0", "--1", "+-1", "1+1", "1e++1", " 1", "1 ", "0x10", "1,5", "١"}
